@@ -22,13 +22,15 @@ def run(tier, seed):
     nfail = vlib.trace_leg(rep, "Trace_Normals.tla", "Trace_Normals.cfg", tr, "clouds",
                            "integer clouds on lattice planes / lines not through the origin (axis-aligned and Pythagorean normals), k in 3..30, eight "
                            "point types: normal = sensor-facing surface normal, curvature 0, equivariance under signed permutations; range "
-                           "invariants (unit, facing, curvature in [0, 1/DIM]) on non-planar clouds")
+                           "invariants (unit, facing, curvature in [0, 1/DIM]) on non-planar clouds; least-variance direction / curvature on generic clouds")
     # the trace spec has no state graph of its own: report the validated events as the explored space
     rep.states = max(rep.states, 1)
     rep.transitions = max(rep.transitions, rep.extra["legs"]["clouds"]["events"])
     rep.assumptions += ["EXACT LATTICE ONLY: planar / linear integer clouds with rational unit normal (den 1, 5, 7, 9, 13, 25); exactness asserted only "
                         "where the points strictly closer than the k-th neighbour already span the surface (distinct smallest eigenvalue)",
-                        "not decided: 'direction of least variance' on generic neighbourhoods, equivariance under generic rotations"]
+                        "generic clouds (curved, noisy, scattered; k 3..30; 8 point types): least-variance direction and curvature against an independent "
+                        "reference as residual bounds (1e-6 double, 2e-3 float) where the neighbour set and the eigen-gap (>= 0.05) are clear-cut",
+                        "not decided: equivariance under generic rotations"]
     return rep.finish()
 
 
